@@ -5,8 +5,9 @@ that satisfies the context predicate of a position (`ValCtx`: right after `key:`
 after `- `; `LineCtx`: at the start of a line), the state machine `ser` succeeds, appends exactly
 the text of the layout function, and re-establishes the flags the next sibling relies on.  Columns:
 a line at serializer depth `d` is indented by `indent_step * d + indent_shift` blanks (`Col`); the
-contexts carry the column of the enclosing keys / dashes, for every `indent_step ≥ 1`.  Strings: whatever the
-`WriteContract` says the scalar-text functions write for the strings of the class (one token each, given by
+contexts carry the column of the enclosing keys / dashes, for every `indent_step ≥ 1` (and that only the nodes at
+depth 0 stand at column 0).  Strings: whatever the `WriteContract` says the scalar-text functions write for the
+strings of the class in each position (one token, or the header and the body lines of a block scalar, given by
 `T : Toks`).  `yaml_12`: every context carries `Base.doc` (the prologue is not pending any more); the root
 starts from `startSt o`, the state after the first `write_indent` has written the prologue (`ser_init`).
 -/
@@ -31,8 +32,10 @@ theorem doc_imp {o : Opts} {s : St} (h : s.docStarted = true ∨ o.yaml12 = fals
   · rw [hd] at h; exact Bool.noConfusion h
   · exact h
 
-/-- a line at serializer depth `d` starts at column `c` (in state `s`) -/
-def Col (o : Opts) (s : St) (d c : Nat) : Prop := ((o.indentStep * d : Nat) : Int) + s.indentShift = (c : Int)
+/-- a line at serializer depth `d` starts at column `c` (in state `s`); only the nodes at depth 0 stand at
+column 0 (what the emitter tests — `base > 0` — when it decides about an indentation indicator) -/
+def Col (o : Opts) (s : St) (d c : Nat) : Prop :=
+  ((o.indentStep * d : Nat) : Int) + s.indentShift = (c : Int) ∧ (d = 0 ↔ c = 0)
 
 /-- right after `key:` of a mapping whose keys are at depth `m`, column `c` -/
 structure ValCtx (o : Opts) (s : St) (m c : Nat) : Prop extends Base o s where
@@ -69,41 +72,35 @@ theorem LineCtx.ofPost {o : Opts} {s s' : St} (h : Post o s s') : LineCtx o s' :
 
 variable {o : Opts} {f : ScalarFns} {P : LeafPred} {T : Toks}
 
-/-- what the emitter invariant assumes about the scalar-text functions, for the strings of a class
-`P` and token functions `T`: a string leaf / a unit variant is written like a fixed token (no block
-style is selected), keys and variant names are the key tokens -/
-structure WriteContract (o : Opts) (f : ScalarFns) (P : LeafPred) (T : Toks) : Prop where
-  str : ∀ s, P.str s = true → ∀ st : St, st.pendingStrStyle = none → st.inFlow = 0 →
-    serStr o f s st = serToken o (T.str s) st
-  unit : ∀ e n, P.unit e n = true → ∀ st : St, st.pendingStrStyle = none → st.inFlow = 0 →
-    ser o f (.unitVariant e n) st = .ok (serToken o (T.unit e n) st)
-  key : ∀ s, P.key s = true → keyStrText o f s = T.key s
-  name : ∀ n, P.name n = true → plainOrQuoted o f n = T.name n
-
 /-! ### columns -/
 
 theorem Col.of_shift {s s' : St} {d c : Nat} (h : Col o s d c) (hs : s'.indentShift = s.indentShift) : Col o s' d c := by
   unfold Col at *; rw [hs]; exact h
 
-theorem Col.succ {s : St} {d c : Nat} (h : Col o s d c) : Col o s (d + 1) (c + o.indentStep) := by
+theorem Col.succ {s : St} {d c : Nat} (h : Col o s d c) (hk : o.indentStep ≥ 1) : Col o s (d + 1) (c + o.indentStep) := by
   unfold Col at *
   have : ((o.indentStep * (d + 1) : Nat) : Int) = ((o.indentStep * d : Nat) : Int) + (o.indentStep : Int) := by
     rw [Nat.mul_succ]; simp
-  rw [this]; push_cast at h ⊢; omega
+  refine ⟨?_, by omega⟩
+  rw [this]; have h1 := h.1; push_cast at h1 ⊢; omega
 
 /-- the columns after `shift_for_inline_node`: one depth level deeper = two columns after the indicator -/
 theorem Col.inline {s : St} {d c : Nat} (h : Col o s d c) : Col o (shiftForInlineNode o s) (d + 1) (c + 2) := by
   unfold Col at *
   have : ((o.indentStep * (d + 1) : Nat) : Int) = ((o.indentStep * d : Nat) : Int) + (o.indentStep : Int) := by
     rw [Nat.mul_succ]; simp
+  refine ⟨?_, by omega⟩
   simp only [shiftForInlineNode]
-  rw [this]; push_cast at h ⊢; omega
+  rw [this]; have h1 := h.1; push_cast at h1 ⊢; omega
+
+/-- depth 0 ⟺ column 0 -/
+theorem Col.zero {s : St} {d c : Nat} (h : Col o s d c) : d = 0 ↔ c = 0 := h.2
 
 /-- `indent_cols(d)` in any state with the shift of `s` -/
 theorem indentCols_col {s : St} {d c : Nat} (h : Col o s d c) (st : St) (hst : st.indentShift = s.indentShift) :
     indentCols o st d = c := by
   unfold Col at h
-  simp only [indentCols, hst, h, Int.toNat_natCast]
+  simp only [indentCols, hst, h.1, Int.toNat_natCast]
 
 theorem restoreShift_some (σ : Int) (s : St) : restoreShift (some σ) s = { s with indentShift := σ } := rfl
 @[simp] theorem restoreShift_none (s : St) : restoreShift none s = s := rfl
@@ -125,6 +122,41 @@ def Good (o : Opts) (s : St) (r : List Char × List Line × Bool) (res : Except 
 /-- result shape of a list of items / entries that start at a line start -/
 def GoodLines (o : Opts) (s : St) (r : List Line × Bool) (s' : St) : Prop :=
   s'.out = s.out ++ renderLines r.1 ∧ s'.lastValueWasBlock = r.2 ∧ Post o s s'
+
+/-- the state of the serializer once the prologue is out: what the first `write_indent` of a document
+makes of the initial state before it writes the indentation (`ser_init`: a value of the fragment
+serializes from the initial state exactly as from this one) -/
+def startSt (o : Opts) : St := { out := prologue o, docStarted := true }
+
+@[simp] theorem startSt_out : (startSt o).out = prologue o := rfl
+@[simp] theorem startSt_lvb : (startSt o).lastValueWasBlock = false := rfl
+@[simp] theorem startSt_shift : (startSt o).indentShift = 0 := rfl
+@[simp] theorem startSt_cmd : (startSt o).currentMapDepth = none := rfl
+
+/-- what the emitter invariant assumes about the scalar-text functions, for the strings of a class
+`P` and texts `T`: a string leaf is written as `T.strAt` says for its position — the text on the line of the
+leaf, then the following lines (a plain / quoted token: no following lines; a block scalar: the header and the
+body lines) — and leaves the state of a finished scalar behind; likewise a unit variant (`T.unitAt`);
+keys and variant names are the key tokens -/
+structure WriteContract (o : Opts) (f : ScalarFns) (P : LeafPred) (T : Toks) : Prop where
+  strVal : ∀ s, P.str s = true → ∀ (st : St) (m c : Nat), ValCtx o st m c →
+    Good o st (' ' :: (T.strAt o.indentStep (.val c) s).1, (T.strAt o.indentStep (.val c) s).2, false) (.ok (serStr o f s st))
+  strItem : ∀ s, P.str s = true → ∀ (st : St) (d c : Nat), ItemCtx o st d c →
+    Good o st ((T.strAt o.indentStep (.item c) s).1, (T.strAt o.indentStep (.item c) s).2, false) (.ok (serStr o f s st))
+  strRoot : ∀ s, P.str s = true → (serStr o f s (startSt o)).out =
+    prologue o ++ renderLines (⟨0, (T.strAt o.indentStep .root s).1⟩ :: (T.strAt o.indentStep .root s).2)
+  strInit : ∀ s, P.str s = true → serStr o f s {} = serStr o f s (startSt o)
+  unitVal : ∀ e n, P.unit e n = true → ∀ (st : St) (m c : Nat), ValCtx o st m c →
+    Good o st (' ' :: (T.unitAt o.indentStep (.val c) e n).1, (T.unitAt o.indentStep (.val c) e n).2, false)
+      (ser o f (.unitVariant e n) st)
+  unitItem : ∀ e n, P.unit e n = true → ∀ (st : St) (d c : Nat), ItemCtx o st d c →
+    Good o st ((T.unitAt o.indentStep (.item c) e n).1, (T.unitAt o.indentStep (.item c) e n).2, false)
+      (ser o f (.unitVariant e n) st)
+  unitRoot : ∀ e n, P.unit e n = true → ∃ s', ser o f (.unitVariant e n) (startSt o) = .ok s' ∧ s'.out =
+    prologue o ++ renderLines (⟨0, (T.unitAt o.indentStep .root e n).1⟩ :: (T.unitAt o.indentStep .root e n).2)
+  unitInit : ∀ e n, P.unit e n = true → ser o f (.unitVariant e n) {} = ser o f (.unitVariant e n) (startSt o)
+  key : ∀ s, P.key s = true → keyStrText o f s = T.key s
+  name : ∀ n, P.name n = true → plainOrQuoted o f n = T.name n
 
 /-! ### leaf tokens -/
 
@@ -346,7 +378,7 @@ theorem serializeSeq_val (ho : FragOpts o) {s : St} {m c : Nat} (h : ValCtx o s 
     · simp only [hcp, if_true, seqCol]
       exact h.col.of_shift rfl
     · simp only [hcp, if_false, seqCol, Bool.false_eq_true]
-      exact h.col.succ.of_shift rfl
+      exact (h.col.succ ho.indent).of_shift rfl
 
 /-- `SeqSer::finish` of a non-empty block sequence (`s0` = the state the sequence started in) -/
 theorem seqEnd_nonempty {s0 s : St} {q : SeqSer} (hq : q.flow = false) (hf : q.first = false)
@@ -736,7 +768,7 @@ theorem beginVariant_val (ho : FragOpts o) (hw : WriteContract o f P T) {s : St}
       s3.lastValueWasBlock = s.lastValueWasBlock ∧ s3.indentShift = s.indentShift ∧ s3.currentMapDepth.isSome = true := by
   have := h.als; have := h.psc; have := h.doc; have := doc_imp h.doc
   have := h.inFlow
-  have hic := indentCols_col h.col.succ
+  have hic := indentCols_col (h.col.succ ho.indent)
   have hbase : s.currentMapDepth.getD s.depth = m := by
     rcases h.cmd with hc | ⟨hc, hm, hd0⟩
     · simp [hc]
@@ -747,7 +779,7 @@ theorem beginVariant_val (ho : FragOpts o) (hw : WriteContract o f P T) {s : St}
   · constructor
     · constructor <;> simp [afterKey, h.inFlow, h.pendingFlow, h.pss, h.pic]
     all_goals first
-      | exact h.col.succ.of_shift rfl
+      | exact (h.col.succ ho.indent).of_shift rfl
       | simp [afterKey, h.add]
   · simp [afterKey, List.append_assoc]
   · simp [afterKey]
@@ -774,15 +806,6 @@ theorem beginVariant_item (ho : FragOpts o) (hw : WriteContract o f P T) {s : St
   · simp [shiftForInlineNode, afterKey]
   · simp [shiftForInlineNode, afterKey]
 
-/-- the state of the serializer once the prologue is out: what the first `write_indent` of a document
-makes of the initial state before it writes the indentation (`ser_init`: a value of the fragment
-serializes from the initial state exactly as from this one) -/
-def startSt (o : Opts) : St := { out := prologue o, docStarted := true }
-
-@[simp] theorem startSt_out : (startSt o).out = prologue o := rfl
-@[simp] theorem startSt_lvb : (startSt o).lastValueWasBlock = false := rfl
-@[simp] theorem startSt_shift : (startSt o).indentShift = 0 := rfl
-@[simp] theorem startSt_cmd : (startSt o).currentMapDepth = none := rfl
 
 /-- `begin_variant` at the root: the label at column 0, the payload in `ValCtx _ 0 0` -/
 theorem beginVariant_root (ho : FragOpts o) (hw : WriteContract o f P T) {n : List Char} (hn : P.name n = true) :
@@ -874,13 +897,8 @@ theorem ser_bool_tok (b : Bool) (s : St) :
 omit ho hw in
 theorem ser_int_tok (i : Int) (s : St) : ser o f (.int i) s = .ok (serToken o (intText i) s) := by rw [ser]
 
-theorem ser_str_tok {t : List Char} (h1 : P.str t = true) (s : St)
-    (hp : s.pendingStrStyle = none) (hi : s.inFlow = 0) : ser o f (.str t) s = .ok (serToken o (T.str t) s) := by
-  rw [ser, hw.str t h1 s hp hi]
-
-theorem ser_unitVariant_tok (e : List Char) {t : List Char} (h1 : P.unit e t = true) (s : St)
-    (hp : s.pendingStrStyle = none) (hi : s.inFlow = 0) : ser o f (.unitVariant e t) s = .ok (serToken o (T.unit e t) s) :=
-  hw.unit e t h1 s hp hi
+omit ho hw in
+theorem ser_str (t : List Char) (s : St) : ser o f (.str t) s = .ok (serStr o f t s) := by rw [ser]
 
 /-! ### sequences -/
 
@@ -1068,7 +1086,7 @@ theorem map_empty_val {s : St} {m c : Nat} (h : ValCtx o s m c) (len : Option Na
       (.ok (mapEnd o (serializeMap o len s).1 (serializeMap o len s).2)) := by
   have := h.als; have := h.psc; have := h.inFlow; have := h.pendingFlow; have := h.pim; have := h.doc
   have := ho.braces; have := doc_imp h.doc
-  have hic := indentCols_col h.col.succ
+  have hic := indentCols_col (h.col.succ ho.indent)
   have hbase : (if s.currentMapDepth.isSome = true then s.currentMapDepth.getD s.depth else s.depth) = m := by
     rcases h.cmd with hc | ⟨hc, hm, hd0⟩
     · simp [hc]
@@ -1110,7 +1128,7 @@ theorem map_val_step (known : Bool) {es : List (SVal × SVal)} (hes : EntriesOK 
   | cons e es' =>
     obtain ⟨s2, heq, hc2, hout2, hl2, hcmd2, hsh2⟩ := serializeMap_val (f := f) ho h known e es'
     obtain ⟨m', s', he, hmf, hmr, hmfirst, hg⟩ :=
-      hes s2 { depth := m + 1, flow := false, first := true } (c + o.indentStep) rfl rfl hc2 (h.col.succ.of_shift hsh2)
+      hes s2 { depth := m + 1, flow := false, first := true } (c + o.indentStep) rfl rfl hc2 ((h.col.succ ho.indent).of_shift hsh2)
     rw [heq, he]
     have hfirst : m'.first = false := by simpa using hmfirst
     obtain ⟨hp, hout, hlvb⟩ := mapEnd_nonempty (o := o) (s0 := s) hmf hfirst hg.2.2.toBase hg.2.2.als hg.2.2.psc
@@ -1258,10 +1276,12 @@ theorem ser_val : ∀ (v : SVal), inFragP P v = true → ValOK o f T v
   | .int i, _ => leaf_val ho hw (fun s _ _ => ser_int_tok i s) (fun _ _ _ _ _ => by simp [layVal])
   | .str t, hv => by
     simp only [inFragP] at hv
-    exact leaf_val ho hw (ser_str_tok ho hw hv) (fun _ _ _ _ _ => by simp [layVal])
+    intro s m c h
+    rw [ser_str]; simpa [layVal] using hw.strVal t hv s m c h
   | .unitVariant e n, hv => by
     simp only [inFragP] at hv
-    exact leaf_val ho hw (ser_unitVariant_tok ho hw e hv) (fun _ _ _ _ _ => by simp [layVal])
+    intro s m c h
+    simpa [layVal] using hw.unitVal e n hv s m c h
   | .some v, hv => by
     simp only [inFragP] at hv
     intro s m c h
@@ -1322,10 +1342,12 @@ theorem ser_item : ∀ (v : SVal), inFragP P v = true → ItemOK o f T v
   | .int i, _ => leaf_item ho hw (fun s _ _ => ser_int_tok i s) (fun _ _ _ _ => by simp [layItem])
   | .str t, hv => by
     simp only [inFragP] at hv
-    exact leaf_item ho hw (ser_str_tok ho hw hv) (fun _ _ _ _ => by simp [layItem])
+    intro s d c h
+    rw [ser_str]; simpa [layItem] using hw.strItem t hv s d c h
   | .unitVariant e n, hv => by
     simp only [inFragP] at hv
-    exact leaf_item ho hw (ser_unitVariant_tok ho hw e hv) (fun _ _ _ _ => by simp [layItem])
+    intro s d c h
+    simpa [layItem] using hw.unitItem e n hv s d c h
   | .some v, hv => by
     simp only [inFragP] at hv
     intro s d c h
@@ -1504,12 +1526,10 @@ theorem ser_root : ∀ (v : SVal), inFragP P v = true →
   | .int i, _ => ⟨_, by rw [ser], by simpa [layRoot, leafTok] using (serToken_line (o := o) ho (intText i) lineCtx_init rfl col_init).1⟩
   | .str t, hv => by
     simp only [inFragP] at hv
-    refine ⟨_, ser_str_tok ho hw hv (startSt o) rfl rfl, ?_⟩
-    simpa [layRoot, leafTok] using (serToken_line (o := o) ho (T.str t) lineCtx_init rfl col_init).1
+    exact ⟨_, ser_str t (startSt o), by simpa [layRoot] using hw.strRoot t hv⟩
   | .unitVariant e n, hv => by
     simp only [inFragP] at hv
-    refine ⟨_, ser_unitVariant_tok ho hw e hv (startSt o) rfl rfl, ?_⟩
-    simpa [layRoot, leafTok] using (serToken_line (o := o) ho (T.unit e n) lineCtx_init rfl col_init).1
+    simpa [layRoot] using hw.unitRoot e n hv
   | .some v, hv => by
     simp only [inFragP] at hv
     rw [ser]; simpa [layRoot] using ser_root v hv
@@ -1632,10 +1652,10 @@ theorem ser_init (ho : FragOpts o) (hw : WriteContract o f P T) : ∀ (v : SVal)
   | .int i, _ => by rw [ser, ser, serToken_init]
   | .str t, hv => by
     simp only [inFragP] at hv
-    rw [ser_str_tok ho hw hv {} rfl rfl, ser_str_tok ho hw hv (startSt o) rfl rfl, serToken_init]
+    rw [ser_str, ser_str, hw.strInit t hv]
   | .unitVariant e n, hv => by
     simp only [inFragP] at hv
-    rw [ser_unitVariant_tok ho hw e hv {} rfl rfl, ser_unitVariant_tok ho hw e hv (startSt o) rfl rfl, serToken_init]
+    exact hw.unitInit e n hv
   | .some v, hv => by
     simp only [inFragP] at hv
     rw [ser, ser]; exact ser_init ho hw v hv
@@ -1655,6 +1675,33 @@ theorem ser_init (ho : FragOpts o) (hw : WriteContract o f P T) : ∀ (v : SVal)
   | .spaceAfter _, hv => by simp [inFragP] at hv
   | .litStr _, hv => by simp [inFragP] at hv
   | .foldStr _, hv => by simp [inFragP] at hv
+
+/-- the write contract of texts that are tokens (no block scalars): `serialize_str` writes a string of the class
+like the fixed token `T.str` -/
+theorem WriteContract.ofTok (ho : FragOpts o) (ht : T.IsTok)
+    (hs : ∀ s, P.str s = true → ∀ st : St, st.pendingStrStyle = none → st.inFlow = 0 → serStr o f s st = serToken o (T.str s) st)
+    (hu : ∀ e n, P.unit e n = true → ∀ st : St, st.pendingStrStyle = none → st.inFlow = 0 →
+      ser o f (.unitVariant e n) st = .ok (serToken o (T.unit e n) st))
+    (hk : ∀ s, P.key s = true → keyStrText o f s = T.key s) (hn : ∀ n, P.name n = true → plainOrQuoted o f n = T.name n) :
+    WriteContract o f P T where
+  strVal := fun s h st m c hc => by
+    rw [ht.1, hs s h st hc.pss hc.inFlow]; exact serToken_val (o := o) _ hc
+  strItem := fun s h st d c hc => by
+    rw [ht.1, hs s h st hc.pss hc.inFlow]; exact serToken_item (o := o) _ hc
+  strRoot := fun s h => by
+    rw [ht.1, hs s h (startSt o) rfl rfl]
+    simpa using (serToken_line (o := o) ho (T.str s) lineCtx_init rfl col_init).1
+  strInit := fun s h => by rw [hs s h {} rfl rfl, hs s h (startSt o) rfl rfl, serToken_init]
+  unitVal := fun e n h st m c hc => by
+    rw [ht.2, hu e n h st hc.pss hc.inFlow]; exact serToken_val (o := o) _ hc
+  unitItem := fun e n h st d c hc => by
+    rw [ht.2, hu e n h st hc.pss hc.inFlow]; exact serToken_item (o := o) _ hc
+  unitRoot := fun e n h => by
+    rw [ht.2, hu e n h (startSt o) rfl rfl]
+    exact ⟨_, rfl, by simpa using (serToken_line (o := o) ho (T.unit e n) lineCtx_init rfl col_init).1⟩
+  unitInit := fun e n h => by rw [hu e n h {} rfl rfl, hu e n h (startSt o) rfl rfl, serToken_init]
+  key := hk
+  name := hn
 
 section
 variable (ho : FragOpts o) (hw : WriteContract o f P T)
